@@ -528,24 +528,43 @@ def expand(cases, obs):
     return flat
 
 
+def safe(x):
+    """text that json can always write (lone surrogates escaped)"""
+    if isinstance(x, str):
+        return x.encode("utf-8", "backslashreplace").decode("utf-8")
+    if isinstance(x, dict):
+        return {k: safe(v) for k, v in x.items()}
+    if isinstance(x, (list, tuple)):
+        return [safe(v) for v in x]
+    return x
+
+
 def describe(c, o):
-    d = {k: c[k] for k in c if k in ("t", "mode", "kind", "name", "ops", "opsc", "z", "ws", "addr", "charset", "src", "b", "u", "d", "v", "q", "text", "prefix")}
+    d = {k: safe(c[k]) for k in c if k in ("t", "mode", "kind", "name", "ops", "opsc", "z", "ws", "addr", "charset", "src", "b", "u", "d", "v", "q", "text", "prefix")}
     if c["t"] == "meta":
         d["directive"] = o.get("name")
+        d["announced_sizes_for_0_to_8_operands"] = o.get("sizes")
+        d["expected"] = "width * max(operand count, 1) for .byte/.word/.dword (what the directive emits), None otherwise"
     return d
 
 
 def short_obs(o):
     if isinstance(o, dict):
-        return {k: (v if not isinstance(v, list) or len(v) < 40 else v[:40] + ["..."]) for k, v in o.items() if k not in ("strings", "spaces", "lowers")}
+        return safe({k: (v if not isinstance(v, list) or len(v) < 40 else v[:40] + ["..."]) for k, v in o.items() if k not in ("strings", "spaces", "lowers")})
     return o
+
+
+def case_for_replay(c):
+    if c["t"] == "meta":
+        return None
+    return {k: v for k, v in c.items() if k not in ("src", "plen")}
 
 
 def signature(c, o):
     if c["t"] == "gai":
         return f"get_as_int(bitness={c['b']}, unsigned={c['u']}, default={c['d']}, value={c['v']})"
     if c["t"] == "dir":
-        return f"{c['mode']}:{c['charset']}:{c['addr']}:{c.get('src', '').strip()[:120]}"
+        return safe(f"{c['mode']}:{c['charset']}:{c['addr']}:{c.get('src', '').strip()[:120]}")
     if c["t"] == "scan":
         return f"string:{c['q']}:{c['text'][:40]}"
     if c["t"] == "meta":
@@ -574,7 +593,7 @@ def record(rep, flat, codes, corr=True):
                           "class": "py_space / esc_lower vs str.strip / str.lower over all code points"}[c["t"]],
                          describe(c, o), impl=short_obs(o))
         if code & 2:
-            rep.violate(signature(c, o), WHAT[c["t"]], describe(c, o), impl=short_obs(o), case=c if c["t"] != "meta" else None,
+            rep.violate(signature(c, o), WHAT[c["t"]], describe(c, o), impl=short_obs(o), case=case_for_replay(c),
                         replay="tools/props/c06.py replay(): re-runs the input on the real code and re-judges it in coqc")
 
 
@@ -602,8 +621,7 @@ def account(rep, cases, obs):
             if 92 in c["text"]:
                 rep.nontrivial(("scan", c["q"], tuple(c["text"])))
         elif t == "class":
-            rep.add_eval(0x110000)
-            rep.count("codepoints-classified", 0x110000)
+            rep.count("codepoints-classified-by-python", 0x110000)
         elif t == "meta":
             rep.count("metacommands-introspected", len(o))
 
@@ -643,11 +661,11 @@ def explore(rep, br, tier, seed):
                                 "str.strip / str.lower classes over all 0x110000 code points")
     for c, o in zip(cases, obs):
         if c["t"] == "dir" and c["mode"] == "direct" and c["kind"] == "meta" and c["name"] == ".dword" and len(c["ops"]) == 2:
-            rep.sample({"source": c["src"], "operands": c["ops"], "addr": c["addr"], "impl": short_obs(o)})
+            rep.sample({"source": safe(c["src"]), "operands": c["ops"], "addr": c["addr"], "impl": short_obs(o)})
             break
     for c, o in zip(cases, obs):
         if c["t"] == "dir" and c["mode"] == "e2e" and c["kind"] == "ascii" and len(c["opsc"]) == 1 and len(c["opsc"][0]) >= 3:
-            rep.sample({"source": c["src"], "charset": c["charset"], "impl": short_obs(o)})
+            rep.sample({"source": safe(c["src"]), "charset": c["charset"], "impl": short_obs(o)})
             break
     for c, o in zip(cases, obs):
         if c["t"] == "gai" and c["b"] == 16 and c["v"] == -65535:
